@@ -389,7 +389,10 @@ func boundary(fd protoreflect.FieldDescriptor, k int) protoreflect.Value {
 	case protoreflect.DoubleKind:
 		return protoreflect.ValueOfFloat64([]float64{0, negZero(), 3.5, -1e300}[k%4])
 	case protoreflect.StringKind:
-		return protoreflect.ValueOfString([]string{"", "a", "hello world", strings.Repeat("x", 130)}[k%4])
+		if fd.ParentFile().Syntax() == protoreflect.Proto2 && k%8 == 5 {
+			return protoreflect.ValueOfString("a\xffb\xc3") // not UTF-8: legal in a proto2 string field
+		}
+		return protoreflect.ValueOfString([]string{"", "a", "hello world", strings.Repeat("x", 130), "", "héllo 日本", "a", strings.Repeat("x", 130)}[k%8])
 	case protoreflect.BytesKind:
 		return protoreflect.ValueOfBytes([][]byte{{}, {0}, {1, 2, 3}, bytes.Repeat([]byte{0xff}, 130)}[k%4])
 	case protoreflect.EnumKind:
